@@ -213,6 +213,8 @@ class ExcelCompiler:
             # serialize the workbook filename (not the serialization path)
             filename=self.filename,
         ))
+        # cell_map is removed again after the save, keep a stable key order
+        extra_data['filename'] = extra_data.pop('filename')
         if not filename:
             filename = self.filename + ('.json' if is_json else '.yml')
 
